@@ -205,13 +205,18 @@ def list_close(a, b):
     return U.close(a, b)
 
 
+PRIORITY = ['levels', 'missing-cell', 'assignment', 'flag', 'probability',
+            'runner-up', 'correlation']
+
+
 def diff_records(ra, rb):
-    """first difference of two records of the same cell (or of two cells with
-    the same vector): (class, message) or None"""
+    """the gravest difference of two records of the same cell (or of two
+    cells with the same vector): (class, message) or None"""
     la = [k for k in ra if k != 'cell_id']
     lb = [k for k in rb if k != 'cell_id']
     if sorted(la) != sorted(lb):
         return ('levels', 'levels %r vs %r' % (la, lb))
+    found = []
     for lvl in la:
         ea, eb = ra[lvl], rb[lvl]
         if not isinstance(ea, dict) or not isinstance(eb, dict):
@@ -223,17 +228,26 @@ def diff_records(ra, rb):
                     % (lvl, sorted(ea), sorted(eb)))
         for f, cls in EXACT_FIELDS:
             if ea.get(f) != eb.get(f):
-                return (cls, 'level %r %s: %r vs %r'
-                        % (lvl, f, ea.get(f), eb.get(f)))
+                found.append((cls, 'level %r %s: %r vs %r'
+                              % (lvl, f, ea.get(f), eb.get(f))))
         for f, cls in CLOSE_FIELDS:
             if not list_close(ea.get(f), eb.get(f)):
-                return (cls, 'level %r %s: %r vs %r'
-                        % (lvl, f, ea.get(f), eb.get(f)))
+                found.append((cls, 'level %r %s: %r vs %r'
+                              % (lvl, f, ea.get(f), eb.get(f))))
         other = [k for k in ea if k not in U.ENTRY_KEYS and ea[k] != eb[k]]
         if other:
             return ('levels', 'level %r %s: %r vs %r'
                     % (lvl, other[0], ea[other[0]], eb[other[0]]))
-    return None
+    return worst(found)
+
+
+def worst(found):
+    """the difference whose class comes first in PRIORITY (signatures must
+    not depend on which cell / level happens to be looked at first)"""
+    found = [f for f in found if f]
+    if not found:
+        return None
+    return min(found, key=lambda f: PRIORITY.index(f[0]))
 
 
 def by_id(results):
@@ -246,6 +260,7 @@ def identical_cells_fail(problem, results):
         return None     # C01's business
     recs = by_id(results)
     first = {}
+    found = []
     for c, row in zip(problem['cell_ids'], problem['X']):
         k = tuple(row)
         if c not in recs:
@@ -253,12 +268,12 @@ def identical_cells_fail(problem, results):
         if k in first:
             d = diff_records(recs[first[k]], recs[c])
             if d:
-                return (d[0], 'cells %r and %r have the same expression '
-                        'vector but %s\n%r\n%r'
-                        % (first[k], c, d[1], recs[first[k]], recs[c]))
+                found.append((d[0], 'cells %r and %r have the same '
+                              'expression vector but %s\n%r\n%r'
+                              % (first[k], c, d[1], recs[first[k]], recs[c])))
         else:
             first[k] = c
-    return None
+    return worst(found)
 
 
 def kappas(problem, table):
@@ -366,25 +381,24 @@ def check_pair(ctx, problem, cfg, dproblem, dcfg, derivation, copies=None,
         return False
     a = by_id(base_run['results'])
     b = by_id(der['results'])
-    fail = None
+    found = []
     for c in common:
         if c not in a or c not in b:
-            fail = ('missing-cell', 'cell %r has no record in the %s run'
-                    % (c, 'base' if c not in a else 'derived'))
-            break
+            found.append(('missing-cell', 'cell %r has no record in the %s '
+                          'run' % (c, 'base' if c not in a else 'derived')))
+            continue
         d = diff_records(a[c], b[c])
         if d:
-            fail = (d[0], 'cell %r: %s\nbase    %r\nderived %r'
-                    % (c, d[1], a[c], b[c]))
-            break
-    if fail is None:
-        for new, orig in (copies or {}).items():
-            if new in b and orig in b:
-                d = diff_records(b[orig], b[new])
-                if d:
-                    fail = (d[0], 'copy %r of cell %r: %s\noriginal %r\n'
-                            'copy     %r' % (new, orig, d[1], b[orig], b[new]))
-                    break
+            found.append((d[0], 'cell %r: %s\nbase    %r\nderived %r'
+                          % (c, d[1], a[c], b[c])))
+    for new, orig in (copies or {}).items():
+        if new in b and orig in b:
+            d = diff_records(b[orig], b[new])
+            if d:
+                found.append((d[0], 'copy %r of cell %r: %s\noriginal %r\n'
+                              'copy     %r' % (new, orig, d[1], b[orig],
+                                              b[new])))
+    fail = worst(found)
     if fail:
         ctx.violation(sig + fail[0],
                       'the record of a cell changed with its company (%s): %s'
@@ -439,7 +453,7 @@ def run(ctx):
     quick = ctx.tier == 'quick'
     c01.run_corpus(ctx, 'C06', replay)
     run_units(ctx, 60 if quick else 400)
-    run_pairs(ctx, 15 if quick else 100,
+    run_pairs(ctx, 24 if quick else 150,
               KINDS_QUICK if quick else KINDS_THOROUGH)
 
 
